@@ -1,7 +1,7 @@
 (* Final statements about the comparer model, used verbatim by Props/C20.v. *)
 From Coq Require Import String List Arith NArith ZArith Bool Lia.
 From SV Require Import Base.Base Cmp.Comparer Cmp.Diff Proofs.CmpBase Proofs.CmpAccept Proofs.CmpReject
-  Proofs.CmpSound Proofs.CmpWitness.
+  Proofs.CmpSound Proofs.CmpWitness Proofs.CmpAcceptAny.
 Import ListNotations.
 
 (* ---------- accepts ---------- *)
@@ -400,6 +400,15 @@ Lemma cmp_run_no_other_exception a b :
   cmp_run a b <> AttrErr /\ cmp_run a b <> TypeErr.
 Proof.
   destruct (cmp_run_assert_only a b) as [->|[->| ->]]; repeat split; discriminate.
+Qed.
+
+(* netlists outside the named ones that the general self-acceptance theorem covers: a connected
+   instance without a name, an unnamed port, assignment-style names, a name read as a pattern *)
+Lemma accepts_any_ex :
+  wf_any w_noname /\ ~ wf_named w_noname /\ wf_any w_unnamed /\ wf_any w_asg2 /\ wf_any w_wild /\ wf_any w_zero.
+Proof.
+  split; [vm_compute; reflexivity|]. split; [apply self_unnamed_instance_accepted|].
+  repeat split; vm_compute; reflexivity.
 Qed.
 
 Lemma cmp_run_assert_only_ex :
